@@ -16,19 +16,13 @@ theorem setIA_self (c : SCtx) : c.setIA c.ia = c := by cases c; rfl
 
 /-- claims about the state a (non-boolean) evaluation leaves -/
 def Kept (e : Expr) (c c' : SCtx) : Prop :=
-  c'.axis = c.axis ∧ c'.pos = c.pos ∧ c'.size = c.size ∧ (nsTail e = false → c'.item = c.item)
+  c'.axis = c.axis ∧ c'.pos = c.pos ∧ c'.size = c.size ∧ c'.item = c.item
 
-theorem kept_eq {e : Expr} {c c' : SCtx} (h : Kept e c c') (hn : nsTail e = false) : c' = c := by
+theorem kept_eq {e : Expr} {c c' : SCtx} (h : Kept e c c') : c' = c := by
   obtain ⟨h1, h2, h3, h4⟩ := h
   cases c; cases c'
   simp only at h1 h2 h3 h4
-  have := h4 hn
-  subst h1 h2 h3 this; rfl
-
-theorem evalStep_abbr_irrel (ax : Axis) (t : Test) (n : Nat) (h : ax ≠ .child) :
-    evalStep m a ax t true n = evalStep m a ax t false n := by
-  have hb : (ax == Axis.child) = false := by simpa using h
-  simp [evalStep, explicitChildAtDummy, hb]
+  subst h1 h2 h3 h4; rfl
 
 theorem stepS_spec (hV : ∀ n, isDummyDoc m n = true → kd a n = .doc) (ax : Axis) (t : Test) (ab : Bool)
     (c : SCtx) (hc : c.axis = none) :
@@ -39,35 +33,28 @@ theorem stepS_spec (hV : ∀ n, isDummyDoc m n = true → kd a n = .doc) (ax : A
   by_cases hns : ax = .namespace
   · subst hns
     simp only [beq_self_eq_true, if_true]
-    refine ⟨?_, rfl, rfl, rfl, ?_⟩
-    · simp [evalStep, explicitChildAtDummy, iterAxis, principal]
-    · intro h; simp [nsTail] at h
+    refine ⟨?_, rfl, rfl, rfl, rfl⟩
+    simp [evalStep, iterAxis, principal]
   · have hb : (ax == Axis.namespace) = false := by simpa using hns
     simp only [hb, Bool.false_eq_true, if_false]
     by_cases hab : (ab && ax == .child) = true
     · simp only [hab, if_true]
       simp only [Bool.and_eq_true, beq_iff_eq] at hab
       obtain ⟨rfl, rfl⟩ := hab
-      have hr := prog_restores (m := m) (a := a) .child c.ia (by simp)
+      have hr := prog_restores (m := m) (a := a) .child c.ia
       refine ⟨?_, ?_⟩
       · simp only [hc, Option.isSome_none, Bool.false_eq_true, if_false]
         exact evalAbbrevState_eq t c.ia hia
-      · rw [hr, setIA_self]; exact ⟨rfl, rfl, rfl, fun _ => rfl⟩
+      · rw [hr, setIA_self]; exact ⟨rfl, rfl, rfl, rfl⟩
     · simp only [hab, Bool.false_eq_true, if_false]
-      have hr := prog_restores (m := m) (a := a) ax c.ia hns
+      have hr := axisProg_restores (m := m) (a := a) ax c.ia hia
       refine ⟨?_, ?_⟩
-      · have := evalStepState_eq (m := m) (a := a) ax t c.ia hia (hV c.item)
+      · have := evalStepState_eq (m := m) (a := a) ax t ab c.ia hia (hV c.item)
         unfold evalStepState at this
         rw [hb] at this
         simp only [Bool.false_eq_true, if_false] at this
-        rw [this]
-        cases ab with
-        | false => rfl
-        | true =>
-          have hch : ax ≠ .child := by
-            intro e; subst e; simp at hab
-          exact (evalStep_abbr_irrel ax t c.item hch).symm
-      · rw [hr, setIA_self]; exact ⟨rfl, rfl, rfl, fun _ => rfl⟩
+        exact this
+      · rw [hr, setIA_self]; exact ⟨rfl, rfl, rfl, rfl⟩
 
 /-- the `select_with_focus` loop: values are those of the body at each focus; the axis stays `None` -/
 theorem loopS_spec (g : SCtx → Val × SCtx) (h : Focus → Val)
@@ -109,23 +96,23 @@ theorem evalS_spec (hV : ∀ n, isDummyDoc m n = true → kd a n = .doc) :
     intro t c _ hc
     simp only [evalS, eval]
     refine ⟨rfl, ?_⟩
-    rw [prog_restores .self c.ia (by simp), setIA_self]; exact ⟨rfl, rfl, rfl, fun _ => rfl⟩
+    rw [prog_restores .self c.ia, setIA_self]; exact ⟨rfl, rfl, rfl, rfl⟩
   | parentAbbr =>
     intro t c _ hc
     simp only [evalS, eval]
     refine ⟨rfl, ?_⟩
-    rw [prog_restores .parent c.ia (by simp), setIA_self]; exact ⟨rfl, rfl, rfl, fun _ => rfl⟩
-  | rootOnly => intro t c _ _; exact ⟨rfl, ⟨rfl, rfl, rfl, fun _ => rfl⟩⟩
-  | num k => intro t c _ _; exact ⟨rfl, ⟨rfl, rfl, rfl, fun _ => rfl⟩⟩
-  | lit ng k => intro t c _ _; exact ⟨rfl, ⟨rfl, rfl, rfl, fun _ => rfl⟩⟩
-  | position => intro t c _ _; exact ⟨rfl, ⟨rfl, rfl, rfl, fun _ => rfl⟩⟩
-  | last => intro t c _ _; exact ⟨rfl, ⟨rfl, rfl, rfl, fun _ => rfl⟩⟩
+    rw [prog_restores .parent c.ia, setIA_self]; exact ⟨rfl, rfl, rfl, rfl⟩
+  | rootOnly => intro t c _ _; exact ⟨rfl, ⟨rfl, rfl, rfl, rfl⟩⟩
+  | num k => intro t c _ _; exact ⟨rfl, ⟨rfl, rfl, rfl, rfl⟩⟩
+  | lit ng k => intro t c _ _; exact ⟨rfl, ⟨rfl, rfl, rfl, rfl⟩⟩
+  | position => intro t c _ _; exact ⟨rfl, ⟨rfl, rfl, rfl, rfl⟩⟩
+  | last => intro t c _ _; exact ⟨rfl, ⟨rfl, rfl, rfl, rfl⟩⟩
   | paren e ih =>
     intro t c h hc
     simp only [ty] at h
     have := ih t c h hc
     simp only [evalS, eval]
-    exact ⟨this.1, by have := this.2; exact ⟨this.1, this.2.1, this.2.2.1, fun hn => this.2.2.2 (by simpa [nsTail] using hn)⟩⟩
+    exact ⟨this.1, by have := this.2; exact ⟨this.1, this.2.1, this.2.2.1, this.2.2.2⟩⟩
   | count e ih =>
     intro t c h hc
     obtain ⟨h1, rfl⟩ := ty_count h
@@ -134,7 +121,7 @@ theorem evalS_spec (hV : ∀ n, isDummyDoc m n = true → kd a n = .doc) :
     refine ⟨?_, ?_⟩
     · cases eval m a e c.focus <;> rfl
     · have k := this.2
-      exact ⟨k.1, k.2.1, k.2.2.1, fun hn => k.2.2.2 (by simpa [nsTail] using hn)⟩
+      exact ⟨k.1, k.2.1, k.2.2.1, k.2.2.2⟩
   | root e ih =>
     intro t c h hc
     obtain ⟨h1, rfl⟩ := ty_root h
@@ -142,7 +129,7 @@ theorem evalS_spec (hV : ∀ n, isDummyDoc m n = true → kd a n = .doc) :
     simp only [evalS, eval]
     refine ⟨this.1, ?_⟩
     have k := this.2
-    exact ⟨k.1, k.2.1, k.2.2.1, fun _ => rfl⟩
+    exact ⟨k.1, k.2.1, k.2.2.1, rfl⟩
   | pred e p ihe ihp =>
     intro t c h hc
     obtain ⟨h1, ⟨tp, h2⟩, rfl⟩ := ty_pred h
@@ -162,7 +149,7 @@ theorem evalS_spec (hV : ∀ n, isDummyDoc m n = true → kd a n = .doc) :
       | dec ng k => rfl
       | bool b => rfl
       | err => rfl
-    · cases eval m a e c.focus <;> exact ⟨rfl, rfl, rfl, fun _ => rfl⟩
+    · cases eval m a e c.focus <;> exact ⟨rfl, rfl, rfl, rfl⟩
   | slash l r ihl ihr =>
     intro t c h hc
     obtain ⟨h1, h2, rfl⟩ := ty_slash h
@@ -186,7 +173,7 @@ theorem evalS_spec (hV : ∀ n, isDummyDoc m n = true → kd a n = .doc) :
       | dec ng k => rfl
       | bool b => rfl
       | err => rfl
-    · cases eval m a l c.focus <;> exact ⟨rfl, rfl, rfl, fun _ => rfl⟩
+    · cases eval m a l c.focus <;> exact ⟨rfl, rfl, rfl, rfl⟩
   | dslash l r ihl ihr =>
     intro t c h hc
     obtain ⟨h1, h2, rfl⟩ := ty_dslash h
@@ -210,7 +197,7 @@ theorem evalS_spec (hV : ∀ n, isDummyDoc m n = true → kd a n = .doc) :
       | dec ng k => rfl
       | bool b => rfl
       | err => rfl
-    · cases eval m a l c.focus <;> exact ⟨rfl, rfl, rfl, fun _ => rfl⟩
+    · cases eval m a l c.focus <;> exact ⟨rfl, rfl, rfl, rfl⟩
   | droot e ih =>
     intro t c h hc
     obtain ⟨h1, rfl⟩ := ty_droot h
@@ -233,27 +220,27 @@ theorem evalS_spec (hV : ∀ n, isDummyDoc m n = true → kd a n = .doc) :
         rw [List.mem_map] at hf
         obtain ⟨d, _, rfl⟩ := hf
         exact ⟨rfl, rfl⟩)
-      exact ⟨rfl, hps.1, hps.2, fun _ => rfl⟩
+      exact ⟨rfl, hps.1, hps.2, rfl⟩
   | union l r ihl ihr =>
     intro t c h hc
     obtain ⟨h1, h2, rfl⟩ := ty_union h
     have hcopy : c.copy = c := sctx_axis_none hc
     simp only [evalS, eval, hcopy, (ihl .path c h1 hc).1, (ihr .path c h2 hc).1]
-    refine ⟨?_, ⟨rfl, rfl, rfl, fun _ => rfl⟩⟩
+    refine ⟨?_, ⟨rfl, rfl, rfl, rfl⟩⟩
     cases eval m a l c.focus <;> cases eval m a r c.focus <;> rfl
   | cmp op l r ihl ihr =>
     intro t c h hc
     obtain ⟨h1, h2, rfl⟩ := ty_cmp h
     have hcopy : c.copy = c := sctx_axis_none hc
     simp only [evalS, eval, hcopy, (ihl .num c h1 hc).1, (ihr .num c h2 hc).1]
-    refine ⟨?_, ⟨rfl, rfl, rfl, fun _ => rfl⟩⟩
+    refine ⟨?_, ⟨rfl, rfl, rfl, rfl⟩⟩
     cases eval m a l c.focus <;> cases eval m a r c.focus <;> rfl
   | and l r ihl ihr =>
     intro t c h hc
     obtain ⟨⟨tl, h1⟩, ⟨tr, h2⟩, rfl⟩ := ty_and h
     have hcopy : c.copy = c := sctx_axis_none hc
     simp only [evalS, eval, hcopy, (ihl tl c h1 hc).1, (ihr tr c h2 hc).1, evalS.andVal']
-    refine ⟨?_, ⟨rfl, rfl, rfl, fun _ => rfl⟩⟩
+    refine ⟨?_, ⟨rfl, rfl, rfl, rfl⟩⟩
     generalize ebv (eval m a l c.focus) = x
     generalize ebv (eval m a r c.focus) = y
     rcases x with _ | (_ | _) <;> rcases y with _ | (_ | _) <;> rfl
@@ -262,7 +249,7 @@ theorem evalS_spec (hV : ∀ n, isDummyDoc m n = true → kd a n = .doc) :
     obtain ⟨⟨tl, h1⟩, ⟨tr, h2⟩, rfl⟩ := ty_or h
     have hcopy : c.copy = c := sctx_axis_none hc
     simp only [evalS, eval, hcopy, (ihl tl c h1 hc).1, (ihr tr c h2 hc).1, evalS.orVal']
-    refine ⟨?_, ⟨rfl, rfl, rfl, fun _ => rfl⟩⟩
+    refine ⟨?_, ⟨rfl, rfl, rfl, rfl⟩⟩
     generalize ebv (eval m a l c.focus) = x
     generalize ebv (eval m a r c.focus) = y
     rcases x with _ | (_ | _) <;> rcases y with _ | (_ | _) <;> rfl
@@ -271,7 +258,7 @@ theorem evalS_spec (hV : ∀ n, isDummyDoc m n = true → kd a n = .doc) :
     obtain ⟨⟨te, h1⟩, rfl⟩ := ty_not h
     have hcopy : c.copy = c := sctx_axis_none hc
     simp only [evalS, eval, hcopy, (ih te c h1 hc).1]
-    refine ⟨?_, ⟨rfl, rfl, rfl, fun _ => rfl⟩⟩
+    refine ⟨?_, ⟨rfl, rfl, rfl, rfl⟩⟩
     generalize ebv (eval m a e c.focus) = x
     rcases x with _ | (_ | _) <;> rfl
 
